@@ -9,6 +9,7 @@ pub mod c08;
 pub mod c09;
 pub mod c10;
 pub mod c11;
+pub mod c12;
 pub mod c13;
 pub mod c14;
 pub mod c16;
@@ -32,6 +33,7 @@ pub fn run(id: &str, tier: Tier) -> Option<Report> {
         "C09" => c09::run(tier),
         "C10" => c10::run(tier),
         "C11" => c11::run_check(tier),
+        "C12" => c12::run(tier),
         "C13" => c13::run(tier),
         "C14" => c14::run(tier),
         "C16" => c16::run(tier),
